@@ -263,6 +263,50 @@ pub proof fn lemma_cmp_canonical_is_len_first(a: Label, b: Label)
 {
     axiom_enc_is_det(label_cv(a)); axiom_enc_is_det(label_cv(b));
 }
+/// small non-negative integer labels encode to the single byte n
+pub proof fn lemma_enc_label_small_int(t: i64)
+    requires 0 <= t < 24,
+    ensures enc_label(Label::Int(t)) == seq![t as u8],
+{
+    reveal_with_fuel(be, 1);
+    assert(enc_label(Label::Int(t)) =~= seq![t as u8]);
+}
+/// every label other than the integers 0..=5 encodes to more than one byte or to a single byte above 0x05
+pub proof fn lemma_enc_label_above_typed(l: Label)
+    requires !(l matches Label::Int(x) && 0 <= x <= 5), small(utf8(label_text(l))),
+    ensures enc_label(l).len() >= 1, enc_label(l).len() == 1 ==> enc_label(l)[0] > 5,
+{
+    reveal_with_fuel(be, 1);
+    match l {
+        Label::Int(x) => {
+            if x >= 0 { lemma_be_len(x as nat, width(x as nat)); assert(enc_label(l)[0] == (info(x as nat)) as u8); }
+            else { let n = (-1 - x) as nat; lemma_be_len(n, width(n)); assert(enc_label(l)[0] == (32 + info(n)) as u8); }
+        }
+        Label::Text(t) => {
+            let u = utf8(t@);
+            lemma_be_len(u.len(), width(u.len()));
+            assert(enc_label(l) =~= head(3, u.len()) + u);
+            assert(enc_label(l)[0] == (96 + info(u.len())) as u8);
+        }
+    }
+}
+pub proof fn lemma_len_first_typed_before_extra(t: i64, l: Label)
+    requires 1 <= t <= 5, !(l matches Label::Int(x) && 0 <= x <= 5), small(utf8(label_text(l))),
+    ensures len_first_cmp(enc_label(Label::Int(t)), enc_label(l)) is Less,
+{
+    lemma_enc_label_small_int(t);
+    lemma_enc_label_above_typed(l);
+    let a = enc_label(Label::Int(t)); let b = enc_label(l);
+    if b.len() == 1 { reveal_with_fuel(lex_cmp, 2); assert(a[0] < b[0]); }
+}
+/// length-first comparison of encodings is Equal only for equal labels
+pub proof fn lemma_len_first_equal_is_same(a: Label, b: Label)
+    requires small(utf8(label_text(a))), small(utf8(label_text(b))), len_first_cmp(enc_label(a), enc_label(b)) is Equal,
+    ensures a == b,
+{
+    lemma_label_order_is_encoding_order(a, b);
+    crate::common::lemma_label_eq_cmp();
+}
 pub open spec fn label_text(l: Label) -> Seq<char> { match l { Label::Text(t) => t@, _ => Seq::<char>::empty() } }
 }
 }
